@@ -35,7 +35,7 @@ CHECKS = {
             'PARTIAL: malformed XML -> MosInvalidXML and file = str = bytes, default = -W error are runtime clauses checked by '
             'differential runs (expat and file I/O are not modelled).',
             'section 5 C08', 'Coq theorems on the decision function + differential classification under two interpreter configurations'),
-    'C09': ('proof', 'Theorems C09_strict and C09_nonstrict characterise the model merge loop (prefix / first error; one '
+    'C09': ('proof', 'Theorems C09_strict, C09_nonstrict and C09_collection_is_sequential_addition (end to end from the documents: readers, sorting, validation, loop) characterise the model merge loop (prefix / first error; one '
             'MosMergeNonStrictWarning per failing message; state = sequential application). Correspondence: random mixed sequences, '
             'both modes, from_strings and from_files, compared with the model and with a hand fold of ro += msg.',
             'section 5 C09', 'Coq theorems (induction over the message list) + differential collections'),
